@@ -6,8 +6,13 @@
      inside a Lock/TryLock/Unlock/... call on k ("holds or awaits the key"),
    - a thread is inside such a call on k only while nobody is inside ClearKey(k)
    ([disc2_from], a condition on the thread the schedule picks, at every step).
-   Proved: per-KEY mutual exclusion ([keyed_mutual_exclusion_clearkey]), and the
-   key's current mutex is locked while the key is held exclusively.
+   Proved: per-KEY mutual exclusion ([keyed_mutual_exclusion_clearkey]), the
+   key's current mutex is locked while the key is held exclusively, such runs
+   never panic, and (last part of the file) the key-level theorems of
+   InsertOnly.v for TryLockKey / TryRLockKey / LockKey / RLockKey: they fail
+   (wait) while the key is held incompatibly and succeed when it is free (the
+   latter for fresh mutexes; [src2_reachable]: every value recorded for a key was
+   put there by a LoadOrStore of that key).
 
    After ClearKey the next LockKey creates a NEW mutex for the key (see the
    example), so "one mutex per key" no longer holds across a ClearKey; what
@@ -623,3 +628,459 @@ Example clearkey_example :
   ck_ex_obs (run_schedule (init_config 1 ck_ex_progs) (ck_ex_sched 30)) =
     ([None; None], [(1%nat, 8%Z, true)], [(2001%Z, UFree); (1001%Z, UFree); (3001%Z, ULocked)], (Some 2001%Z, Some 3001%Z)).
 Proof. vm_compute. repeat split. Qed.
+
+Lemma reach_dirty_ins es ne rm am d ms k' e' k e :
+  reach_any (MState es ne rm am (Some (<[k' := e']> d)) ms) k e ->
+  rm !! k = Some e \/ (k = k' /\ e = e') \/ (k <> k' /\ d !! k = Some e).
+Proof.
+  intros [H|H]; cbn in H; [left; exact H|]. destruct (decide (k = k')) as [->|N].
+  - rewrite lookup_insert in H. right. left. split; congruence.
+  - rewrite lookup_insert_ne in H by congruence. right. right. auto.
+Qed.
+Lemma get_ent_ins es ne rm am d ms n p e :
+  get_ent (MState (<[n := p]> es) ne rm am d ms) e = if decide (e = n) then p else default PNil (es !! e).
+Proof. unfold get_ent. cbn. destruct (decide (e = n)) as [->|N]; [rewrite lookup_insert|rewrite lookup_insert_ne by congruence]; reflexivity. Qed.
+
+Lemma new_val_insert s d kk v am ms rm k0 e0 m0 : WF_core s -> dirty s = Some d -> rm = read_m s ->
+  reach_any (MState (<[next_e s := PVal v]> (ents s)) (S (next_e s)) rm am (Some (<[kk := next_e s]> d)) ms) k0 e0 ->
+  get_ent (MState (<[next_e s := PVal v]> (ents s)) (S (next_e s)) rm am (Some (<[kk := next_e s]> d)) ms) e0 = PVal m0 ->
+  (reach_any s k0 e0 /\ get_ent s e0 = PVal m0) \/ (k0 = kk /\ m0 = v).
+Proof.
+  intros Hc Hd -> Hr Hg. rewrite get_ent_ins in Hg.
+  assert (Hold : reach_any s k0 e0 -> reach_any s k0 e0 /\ get_ent s e0 = PVal m0).
+  { intros H. split; [exact H|]. pose proof (wf_bound _ Hc _ _ H). rewrite decide_False in Hg by lia. exact Hg. }
+  apply reach_dirty_ins in Hr as [Hr|[[-> ->]|[_ Hr]]].
+  - left. apply Hold. left. exact Hr.
+  - right. rewrite decide_True in Hg by reflexivity. split; congruence.
+  - left. apply Hold. right. unfold dirty_lookup. rewrite Hd. exact Hr.
+Qed.
+
+Lemma get_ent_misses s x e : get_ent (st_with_misses s x) e = get_ent s e.
+Proof. reflexivity. Qed.
+
+Lemma reach_dirty_delete s k' k e : reach_any (dirty_delete s k') k e -> reach_any s k e.
+Proof.
+  unfold dirty_delete. destruct (dirty s) as [d|] eqn:Hd; [|auto]. intros [H|H]; cbn in H; [left; exact H|].
+  apply lookup_delete_Some in H as [_ H]. right. unfold dirty_lookup. rewrite Hd. exact H.
+Qed.
+Lemma get_ent_dirty_delete s k' e : get_ent (dirty_delete s k') e = get_ent s e.
+Proof. unfold dirty_delete. destruct (dirty s); reflexivity. Qed.
+
+(* ---- where values come from: every value reachable under key k was put there by a LoadOrStore k ---- *)
+Lemma new_val_ck t i f ch i' o :
+  ck_call (f_call f) -> InsertOnly.pc_ok (f_call f) (f_pc f) = true -> frame_ok f ->
+  WF_core (i_st i) -> (in_cs f = true -> WFL (i_st i) f) -> ref_inv (i_st i) f ->
+  step_frame t i f ch = Some (Ok (i', o)) ->
+  forall k e m, reach_any (i_st i') k e -> get_ent (i_st i') e = PVal m ->
+    (reach_any (i_st i) k e /\ get_ent (i_st i) e = PVal m) \/ (exists j v p, f_call f = CLoadOrStore j k v p /\ m = v).
+Proof.
+  intros Hck Hpc [He Hst Hdel Hpost] Hc Hcs [Hre Hrp] H. unfold step_frame in H.
+  destruct (f_call f) as [j kk|?|j kk v p| |j kk|] eqn:Hcall; try contradiction; cbn in Hck; subst j;
+  destruct (f_pc f) eqn:Hl; try discriminate Hpc; try discriminate H; try (destruct p; discriminate Hpc);
+    cbn [key_of val_of is_lad] in *.
+  all: try (assert (Hin : in_cs f = true) by (unfold in_cs, cs_class; rewrite Hl; reflexivity);
+            destruct (Hcs Hin) as [_ Hw]; unfold cs_class in Hw; rewrite Hl, ?Hcall in Hw; cbn [key_of] in Hw).
+  all: unfold ref_e in Hre; unfold ref_prom in Hrp; rewrite Hl in Hre, Hrp; rewrite ?Hcall in Hre; cbn [key_of is_lad] in Hre.
+  all: unfold expunge_done, tlos_done, bind, new_entry, dirty_insert in H; unfold after_miss, dirty_next, los_return in H;
+    rewrite ?Hcall in H; cbn in H.
+  all: repeat case_match; simplify_eq; cbn [i_st with_st fst snd put_ent]; try (intros; left; split; assumption).
+  all: intros k0 e0 m0 Hr Hg; rewrite ?get_ent_misses in Hg.
+  (* writes of nil / expunged *)
+  all: try (match type of Hg with get_ent (set_ent _ ?n ?pp) _ = _ =>
+              match pp with PVal _ => fail 1 | _ => idtac end;
+              rewrite get_ent_set_ent in Hg; destruct (decide (e0 = n)); [discriminate Hg|left; split; [exact Hr|exact Hg]] end).
+  (* tryLoadOrStore's CAS from nil *)
+  all: try (match type of Hg with get_ent (set_ent _ ?n (PVal ?vv)) _ = _ =>
+              rewrite get_ent_set_ent in Hg; destruct (decide (e0 = n)) as [->|Ne]; [|left; split; [exact Hr|exact Hg]];
+              injection Hg as <-; right; exists 0%nat, vv, p; split; [|reflexivity]; f_equal;
+              specialize (Hre _ eq_refl); change (reach_any (i_st i) k0 n) in Hr;
+              first [destruct Hre as [Hp|[_ Hu]]; [eapply (wf_inj _ Hc); [left; exact Hp|exact Hr]|exfalso; exact (Hu _ Hr)]
+                    |destruct Hre as [Hp _]; eapply (wf_inj _ Hc); [left; exact Hp|exact Hr]
+                    |destruct Hre as [_ Hp]; eapply (wf_inj _ Hc); [right; exact Hp|exact Hr]] end).
+  (* promotion *)
+  all: try (match type of Hr with reach_any (MState _ _ (default ∅ _) false None 0) _ _ =>
+              left; split; [|exact Hg]; destruct Hr as [Hr|Hr]; cbn in Hr; [|discriminate Hr];
+              right; unfold dirty_lookup; match goal with |- context [dirty (i_st ?ii)] => destruct (dirty (i_st ii)) end; cbn in Hr;
+              [exact Hr|rewrite lookup_empty in Hr; discriminate Hr] end).
+  (* dirty := make(map) *)
+  all: try (match type of Hr with reach_any (st_with_dirty _ (Some ∅)) _ _ =>
+              left; split; [|exact Hg]; destruct Hr as [Hr|Hr]; cbn in Hr; [left; exact Hr|rewrite lookup_empty in Hr; discriminate Hr] end).
+  - (* Unexpunge_cas *)
+    destruct Hw as [_ Hrk]. rewrite get_ent_ins in Hg. destruct (decide (e0 = n)); [discriminate Hg|].
+    left. split; [|exact Hg]. apply reach_dirty_ins in Hr as [Hr|[[-> ->]|[_ Hr]]]; [left; exact Hr|left; exact Hrk|].
+    right. unfold dirty_lookup. rewrite H3. exact Hr.
+  - destruct (new_val_insert _ _ _ _ _ _ _ _ _ _ Hc H4 eq_refl Hr Hg) as [H|[-> ->]]; [left; exact H|right; eauto].
+  - destruct Hw as [(L1 & L2 & L3 & d & L4 & _) _]. assert (g = d) by congruence. subst g.
+    destruct (new_val_insert _ _ _ _ _ _ _ _ _ _ Hc L4 L1 Hr Hg) as [H|[-> ->]]; [left; exact H|right; eauto].
+  - destruct Hw as (vis & _ & _ & Hcur & (L1 & _)). rewrite L1 in Hcur. left. split; [|exact Hg].
+    match goal with Hd : dirty (i_st i) = Some ?g |- _ =>
+      apply reach_dirty_ins in Hr as [Hr|[[-> ->]|[_ Hr]]]; [left; exact Hr|left; exact Hcur|right; unfold dirty_lookup; rewrite Hd; exact Hr] end.
+  - destruct Hw as (vis & _ & _ & Hcur & (L1 & _)). rewrite L1 in Hcur. left. split; [|exact Hg].
+    match goal with Hd : dirty (i_st i) = Some ?g |- _ =>
+      apply reach_dirty_ins in Hr as [Hr|[[-> ->]|[_ Hr]]]; [left; exact Hr|left; exact Hcur|right; unfold dirty_lookup; rewrite Hd; exact Hr] end.
+  - destruct Hw as (vis & _ & _ & Hcur & (L1 & _)). rewrite L1 in Hcur. left. split; [|exact Hg].
+    match goal with Hd : dirty (i_st i) = Some ?g |- _ =>
+      apply reach_dirty_ins in Hr as [Hr|[[-> ->]|[_ Hr]]]; [left; exact Hr|left; exact Hcur|right; unfold dirty_lookup; rewrite Hd; exact Hr] end.
+  - destruct Hw as (vis & _ & _ & Hcur & (L1 & _)). rewrite L1 in Hcur. left. split; [|exact Hg].
+    match goal with Hd : dirty (i_st i) = Some ?g |- _ =>
+      apply reach_dirty_ins in Hr as [Hr|[[-> ->]|[_ Hr]]]; [left; exact Hr|left; exact Hcur|right; unfold dirty_lookup; rewrite Hd; exact Hr] end.
+  - left. rewrite get_ent_dirty_delete in Hg. split; [|exact Hg]. apply (reach_dirty_delete _ kk). exact Hr.
+  - left. rewrite get_ent_dirty_delete in Hg. split; [|exact Hg]. apply (reach_dirty_delete _ kk). exact Hr.
+Qed.
+
+Definition src2 (G : Z -> Z -> Prop) (s : mstate) : Prop :=
+  forall k e m, reach_any s k e -> get_ent s e = PVal m -> G k m.
+
+Theorem src2_reachable G progs sched i : ck_progs progs -> Forall (Forall (callG G)) progs ->
+  c_insts (run_schedule (init_config 1 progs) sched) = [i] -> src2 G (i_st i).
+Proof.
+  intros Hp HG.
+  enough (H : let c := run_schedule (init_config 1 progs) sched in
+              Inv c /\ Inv2 c /\ Shaped ck_call c /\ Shaped (callG G) c /\ PcOK c /\
+              exists i, c_insts c = [i] /\ src2 G (i_st i)).
+  { intros Hi. destruct H as (_ & _ & _ & _ & _ & i0 & Hi0 & H). assert (i0 = i) by congruence. subst. exact H. }
+  apply run_schedule_ind.
+  - split; [apply Inv_init|]. split; [apply Inv2_init|]. split; [apply Shaped_init, Hp|]. split; [apply Shaped_init, HG|].
+    split; [apply PcOK_init|]. exists empty_inst. split; [reflexivity|].
+    intros k e m [H|H]; cbn in H; [rewrite lookup_empty in H|]; discriminate.
+  - clear sched. intros c t ch c' (HI & HI2 & HS & HSG & HP & i0 & Hi & Hsrc) Hstep.
+    assert (HS0 : Shaped flat_call c) by (eapply Shaped_weaken; [apply ck_flat|exact HS]).
+    pose proof (step_fstep _ _ _ _ HI HS0 Hstep) as Hfs.
+    split; [eapply Inv_step; eauto|]. split; [exact (Inv2_step _ _ _ _ HI HI2 Hstep)|].
+    split; [exact (Shaped_fstep _ _ _ _ _ HI HS Hfs)|]. split; [exact (Shaped_fstep _ _ _ _ _ HI HSG Hfs)|].
+    split; [exact (PcOK_fstep _ _ _ _ HP Hfs)|].
+    assert (Hi0 : nth_error (c_insts c) 0 = Some i0) by (rewrite Hi; reflexivity).
+    assert (Hmap : forall th f i' o, nth_error (c_threads c) t = Some th -> t_stack th = [f] ->
+              step_frame t i0 f ch = Some (Ok (i', o)) -> src2 G (i_st i')).
+    { intros th f i' o Hth Hst Hsf k e m Hr Hg.
+      assert (Tt : top_frame c t = Some f) by (unfold top_frame; rewrite Hth, Hst; reflexivity).
+      assert (Hck : ck_call (f_call f)) by (destruct (HS t th Hth) as [_ Hs]; rewrite Hst in Hs; exact Hs).
+      assert (Hj : call_inst (f_call f) = 0) by (apply ck_call_inst, Hck).
+      destruct (new_val_ck t i0 f ch i' o Hck (HP t f Tt) (inv_frames c HI t f Tt) (Inv_WF_core c 0 i0 HI Hi0)
+                  (fun Hcs => proj2 (Inv_WFL c 0 i0 t f HI Hi0 Tt Hj Hcs))
+                  ltac:(apply (i2_ref c HI2 t f i0 Tt); rewrite Hj; exact Hi0) Hsf k e m Hr Hg) as [[H1 H2]|(j & v & p & Hcall & ->)].
+      - eapply Hsrc; eauto.
+      - destruct (HSG t th Hth) as [_ Hs]. rewrite Hst, Hcall in Hs. exact Hs. }
+    destruct Hfs as [th f um' r Hth Hst Hpl Hsp|th f k Hth Hst Hpl Hsp|th f i1 i' f' Hth Hst Hpl Hi1 Hsf|th f i1 i' r Hth Hst Hpl Hi1 Hsf].
+    + exists i0. auto.
+    + exists i0. auto.
+    + assert (i1 = i0) by congruence. subst i1. exists i'. split; [cbn; rewrite Hi; reflexivity|]. eapply Hmap; eauto.
+    + assert (i1 = i0) by congruence. subst i1. exists i'. split; [cbn; rewrite Hi; reflexivity|]. eapply Hmap; eauto.
+Qed.
+
+Lemma kmut_injective_ck progs sched i k1 k2 m : ck_progs progs -> fresh_values progs ->
+  c_insts (run_schedule (init_config 1 progs) sched) = [i] ->
+  kmut (i_st i) k1 = Some m -> kmut (i_st i) k2 = Some m -> k1 = k2.
+Proof.
+  intros Hp Hfr Hi H1 H2.
+  set (G := fun (k m : Z) => exists j p, In (CLoadOrStore j k m p) (concat progs)).
+  assert (HG : Forall (Forall (callG G)) progs).
+  { apply Forall_forall. intros prog Hprog. apply Forall_forall. intros c Hc.
+    destruct c as [| |j k v p| | |]; cbn; try exact I. exists j, p. apply in_concat. eauto. }
+  pose proof (src2_reachable G progs sched i Hp HG Hi) as Hsrc.
+  apply kmut_Some in H1 as (e1 & R1 & E1). apply kmut_Some in H2 as (e2 & R2 & E2).
+  destruct (Hsrc _ _ _ (klook_reach _ _ _ R1) E1) as (j1 & p1 & G1). destruct (Hsrc _ _ _ (klook_reach _ _ _ R2) E2) as (j2 & p2 & G2).
+  apply (Hfr _ _ G1 G2). reflexivity.
+Qed.
+
+(* ================================================================== *)
+(* Try* / Lock at the level of keys, in runs with ClearKey            *)
+(* ================================================================== *)
+Lemma ck_post_frame_mutex c i t f : CKInv c -> c_insts c = [i] -> top_frame c t = Some f -> is_post_label (f_pc f) = true ->
+  kmut (i_st i) (key_of (f_call f)) = Some (f_los f).1.
+Proof.
+  intros HCK Hi Tt Hpl. destruct (ck_inst _ HCK) as (i0 & Hi0 & Hcfi). assert (i0 = i) by congruence. subst i0.
+  apply (Hcfi t f Tt). unfold los_known. destruct (f_pc f); try discriminate; reflexivity.
+Qed.
+
+Lemma ck_post_step c t ch f : CKInv c -> c_panicked c = false -> top_frame c t = Some f -> is_post_label (f_pc f) = true ->
+  match step_post (c_um c) f with
+  | None => step c t ch = None
+  | Some (Panic _) => exists c', step c t ch = Some c' /\ c_panicked c' = true
+  | Some (Ok (um', o)) => exists c' r, step c t ch = Some c' /\ o = Return r /\ c_um c' = um' /\ c_insts c' = c_insts c /\
+       InsertOnly.completed (c_hist c') = InsertOnly.completed (c_hist c) ++ [(t, f_call f, r)]
+  end.
+Proof.
+  intros HCK Hnp Tt Hpl. pose proof (ck_inv _ HCK) as HI. pose proof (ck_shape _ HCK) as HS. pose proof (ck_hist _ HCK) as HH.
+  unfold top_frame in Tt. destruct (nth_error (c_threads c) t) as [th|] eqn:Hth; [|discriminate].
+  destruct (HS t th Hth) as [_ Hs]. destruct (t_stack th) as [|f0 [|]] eqn:Hst; try discriminate; try contradiction.
+  cbn in Tt. injection Tt as ->.
+  assert (Tt : top_frame c t = Some f) by (unfold top_frame; rewrite Hth, Hst; reflexivity).
+  assert (P0 : t_fresh th = false -> pend_of (c_hist c) !! t = Some (f_call f)) by (eapply HistOK_pend; eauto).
+  rewrite step_unfold, Hnp, Hth, Hst, Hpl.
+  destruct (step_post (c_um c) f) as [[[um' o]|k]|] eqn:Hsp; [| |reflexivity].
+  - destruct (step_post_return _ _ _ _ Hsp) as [r ->]. unfold fin, do_return.
+    assert (Hfo := fo_post _ (inv_frames c HI t f Tt) Hpl).
+    destruct (f_call f) as [| |j k v p| | |] eqn:Hcall; try contradiction.
+    eexists _, r. split; [reflexivity|]. split; [reflexivity|]. split; [reflexivity|]. split; [reflexivity|].
+    cbn [c_hist]. fold (maybe_inv (t_fresh th) t (CLoadOrStore j k v p)). apply completed_ret, P0.
+  - unfold fin. eexists. split; reflexivity.
+Qed.
+
+Lemma ck_step_no_panic c t ch c' : CKInv c -> MInv c -> disciplined2 c t -> step c t ch = Some c' -> c_panicked c' = false.
+Proof.
+  intros HCK HM [Hd _] Hstep.
+  pose proof (ck_inv _ HCK) as HI. pose proof (ck_shape _ HCK) as HS.
+  assert (HS0 : Shaped flat_call c) by (eapply Shaped_weaken; [apply ck_flat|exact HS]).
+  pose proof (step_fstep _ _ _ _ HI HS0 Hstep) as Hfs.
+  destruct Hfs as [th f um' r Hth Hst Hpl Hsp|th f k Hth Hst Hpl Hsp|th f i0 i' f' Hth Hst Hpl Hi1 Hsf|th f i0 i' r Hth Hst Hpl Hi1 Hsf];
+    try reflexivity.
+  exfalso.
+  assert (Tt : top_frame c t = Some f) by (unfold top_frame; rewrite Hth, Hst; reflexivity).
+  destruct HM as (i & Hi & Hk & Hm).
+  pose proof (ck_post_frame_mutex c i t f HCK Hi Tt Hpl) as Hkm. specialize (Hm (f_los f).1). specialize (Hd f Tt).
+  unfold step_post in Hsp.
+  destruct (f_pc f); try discriminate Hpl; unfold holds_excl, holds_shared in Hd;
+    try (assert (Hin : (t, key_of (f_call f), true) ∈ base.filter (on_km (kmut (i_st i)) (f_los f).1) (holders c))
+           by (apply elem_of_list_filter; split; [exact Hkm|exact Hd]));
+    try (assert (Hin : (t, key_of (f_call f), false) ∈ base.filter (on_km (kmut (i_st i)) (f_los f).1) (holders c))
+           by (apply elem_of_list_filter; split; [exact Hkm|exact Hd]));
+    destruct (default UFree (c_um c !! (f_los f).1)) as [| |[|n]]; try discriminate Hsp; cbn in Hm.
+  all: try (rewrite Hm in Hin; inversion Hin; fail).
+  all: try (destruct Hm as [Hm Hall]; try (apply length_zero_nil in Hm; rewrite Hm in Hin; inversion Hin; fail);
+            rewrite Forall_forall in Hall; specialize (Hall _ (proj1 (elem_of_list_In _ _) Hin)); discriminate).
+  all: destruct Hm as (t0 & k0 & Hm); rewrite Hm in Hin; apply elem_of_list_singleton in Hin; discriminate.
+Qed.
+
+Theorem CK_reach progs sched : ck_progs progs -> disc2_from (init_config 1 progs) sched ->
+  let c := run_schedule (init_config 1 progs) sched in CKInv c /\ MInv c /\ c_panicked c = false.
+Proof.
+  intros Hp.
+  enough (H : forall c, CKInv c -> MInv c -> c_panicked c = false -> disc2_from c sched ->
+               CKInv (run_schedule c sched) /\ MInv (run_schedule c sched) /\ c_panicked (run_schedule c sched) = false)
+    by (intros Hd; apply H; [apply CKInv_init, Hp|apply MInv_init|reflexivity|exact Hd]).
+  induction sched as [|[t ch] sched IH]; intros c HCK HM Hnp Hd; cbn; [auto|].
+  destruct Hd as [Hd1 Hd2]. destruct (step c t ch) as [c'|] eqn:E; cbn in *; [|apply IH; assumption].
+  apply IH; [eapply CKInv_step; eauto|eapply MInv2_step; eauto|eapply ck_step_no_panic; eauto|exact Hd2].
+Qed.
+
+(* the state of the key's mutex, seen from a frame that is about to act on it *)
+Lemma ck_mutex_at c i t f : CKInv c -> MInv c -> c_insts c = [i] -> top_frame c t = Some f -> is_post_label (f_pc f) = true ->
+  kmut (i_st i) (key_of (f_call f)) = Some (f_los f).1 /\
+  mutex_ok (mstate_of (c_um c) f) (base.filter (on_km (kmut (i_st i)) (f_los f).1) (holders c)).
+Proof.
+  intros HCK (i0 & Hi0 & _ & Hm) Hi Tt Hpl. assert (i0 = i) by congruence. subst i0.
+  split; [apply (ck_post_frame_mutex c i t f HCK Hi Tt Hpl)|apply Hm].
+Qed.
+
+Local Notation completed := InsertOnly.completed.
+
+Lemma filter_nil_not_held (km : Z -> option Z) m (hs : list hold) h : base.filter (on_km km m) hs = [] -> h ∈ hs -> km h.1.2 <> Some m.
+Proof. intros Hn Hin E. assert (H : h ∈ base.filter (on_km km m) hs) by (apply elem_of_list_filter; split; assumption). rewrite Hn in H. inversion H. Qed.
+
+(* a holder on the mutex makes it non-free for a writer *)
+Lemma held_not_free_for_writer st (Hm : list hold) h : mutex_ok st Hm -> h ∈ Hm -> free_for_writer st = false.
+Proof.
+  destruct st as [| |[|n]]; cbn; intros H Hin; try reflexivity.
+  - rewrite H in Hin. inversion Hin.
+  - destruct H as [H _]. apply length_zero_nil in H. rewrite H in Hin. inversion Hin.
+Qed.
+Lemma excl_not_free_for_reader st (Hm : list hold) t k : mutex_ok st Hm -> (t, k, true) ∈ Hm -> free_for_reader st = false.
+Proof.
+  destruct st as [| |n]; cbn; intros H Hin; try reflexivity.
+  - rewrite H in Hin. inversion Hin.
+  - destruct H as [_ H]. rewrite Forall_forall in H. specialize (H _ (proj1 (elem_of_list_In _ _) Hin)). discriminate.
+Qed.
+Lemma nil_free_for_writer st : mutex_ok st [] -> free_for_writer st = true.
+Proof. destruct st as [| |[|n]]; cbn; intros H; try reflexivity; [destruct H as (? & ? & ?)|destruct H]; discriminate. Qed.
+Lemma no_excl_free_for_reader st (Hm : list hold) : mutex_ok st Hm -> (forall h, h ∈ Hm -> h.2 = false) -> free_for_reader st = true.
+Proof. destruct st as [| |n]; cbn; intros H Hall; try reflexivity. destruct H as (t & k & ->). specialize (Hall (t, k, true) ltac:(left)). discriminate. Qed.
+
+Section ck_keys.
+Variables (progs : list (list call)) (sched : list (nat * Z)).
+Hypothesis Hp : ck_progs progs.
+Hypothesis Hd : disc2_from (init_config 1 progs) sched.
+Let c := run_schedule (init_config 1 progs) sched.
+
+Lemma ck_facts t f : top_frame c t = Some f -> is_post_label (f_pc f) = true ->
+  exists i, c_insts c = [i] /\ kmut (i_st i) (key_of (f_call f)) = Some (f_los f).1 /\
+    mutex_ok (mstate_of (c_um c) f) (base.filter (on_km (kmut (i_st i)) (f_los f).1) (holders c)) /\
+    Forall (fun h : hold => is_Some (kmut (i_st i) h.1.2)) (holders c) /\
+    forall ch, match step_post (c_um c) f with
+      | None => step c t ch = None
+      | Some (Panic _) => exists c', step c t ch = Some c' /\ c_panicked c' = true
+      | Some (Ok (um', o)) => exists c' r, step c t ch = Some c' /\ o = Return r /\ c_um c' = um' /\ c_insts c' = c_insts c /\
+           completed (c_hist c') = completed (c_hist c) ++ [(t, f_call f, r)]
+      end.
+Proof.
+  intros Tt Hpl. destruct (CK_reach progs sched Hp Hd) as (HCK & HM & Hnp). fold c in HCK, HM, Hnp.
+  pose proof HM as (i & Hi & Hk & _). exists i. split; [exact Hi|].
+  destruct (ck_mutex_at c i t f HCK HM Hi Tt Hpl) as [H1 H2]. split; [exact H1|]. split; [exact H2|]. split; [exact Hk|].
+  intros ch. apply (ck_post_step c t ch f HCK Hnp Tt Hpl).
+Qed.
+
+Lemma ck_in_filter i f h : kmut (i_st i) (key_of (f_call f)) = Some (f_los f).1 -> h ∈ holders c -> h.1.2 = key_of (f_call f) ->
+  h ∈ base.filter (on_km (kmut (i_st i)) (f_los f).1) (holders c).
+Proof. intros Hkm Hin Hk. apply elem_of_list_filter. split; [unfold on_km; rewrite Hk; exact Hkm|exact Hin]. Qed.
+
+Theorem ck_trylock_fails_while_held t ch c' f t2 b2 :
+  top_frame c t = Some f -> (f_pc f = KM_TryLock \/ f_pc f = KRW_TryLock) ->
+  (t2, key_of (f_call f), b2) ∈ holders c -> step c t ch = Some c' ->
+  completed (c_hist c') = completed (c_hist c) ++ [(t, f_call f, RBool false)] /\ c_um c' = c_um c /\ holders c' = holders c.
+Proof.
+  intros Tt Hpc Hh Hstep.
+  assert (Hpl : is_post_label (f_pc f) = true) by (destruct Hpc as [-> | ->]; reflexivity).
+  destruct (ck_facts t f Tt Hpl) as (i & Hi & Hkm & Hmo & _ & Hps). specialize (Hps ch).
+  pose proof (held_not_free_for_writer _ _ _ Hmo (ck_in_filter i f _ Hkm Hh eq_refl)) as Hnf.
+  destruct (try_lock_result (c_um c) f Hpc) as (um2 & Hsp & _ & Hsame). rewrite Hsp, Hnf in Hps.
+  destruct Hps as (c'' & r & Hs & [= <-] & Hum & _ & Hc). assert (c'' = c') by congruence. subst c''.
+  split; [exact Hc|]. split; [rewrite Hum; apply Hsame, Hnf|]. rewrite (holders_snoc _ _ _ Hc). apply hold_step_false.
+Qed.
+
+Theorem ck_tryrlock_fails_while_write_held t ch c' f t2 :
+  top_frame c t = Some f -> f_pc f = KRW_TryRLock ->
+  holds_excl c t2 (key_of (f_call f)) -> step c t ch = Some c' ->
+  completed (c_hist c') = completed (c_hist c) ++ [(t, f_call f, RBool false)] /\ c_um c' = c_um c /\ holders c' = holders c.
+Proof.
+  intros Tt Hpc Hh Hstep.
+  assert (Hpl : is_post_label (f_pc f) = true) by (rewrite Hpc; reflexivity).
+  destruct (ck_facts t f Tt Hpl) as (i & Hi & Hkm & Hmo & _ & Hps). specialize (Hps ch).
+  pose proof (excl_not_free_for_reader _ _ _ _ Hmo (ck_in_filter i f _ Hkm Hh eq_refl)) as Hnf.
+  destruct (try_rlock_result (c_um c) f Hpc) as (um2 & Hsp & Hsame & _). rewrite Hsp, Hnf in Hps.
+  destruct Hps as (c'' & r & Hs & [= <-] & Hum & _ & Hc). assert (c'' = c') by congruence. subst c''.
+  split; [exact Hc|]. split; [rewrite Hum; apply Hsame, Hnf|]. rewrite (holders_snoc _ _ _ Hc). apply hold_step_false.
+Qed.
+
+Theorem ck_lock_waits_while_held t ch f t2 b2 :
+  top_frame c t = Some f -> (f_pc f = KM_Lock \/ f_pc f = KRW_Lock) ->
+  (t2, key_of (f_call f), b2) ∈ holders c -> step c t ch = None.
+Proof.
+  intros Tt Hpc Hh.
+  assert (Hpl : is_post_label (f_pc f) = true) by (destruct Hpc as [-> | ->]; reflexivity).
+  destruct (ck_facts t f Tt Hpl) as (i & Hi & Hkm & Hmo & _ & Hps). specialize (Hps ch).
+  pose proof (held_not_free_for_writer _ _ _ Hmo (ck_in_filter i f _ Hkm Hh eq_refl)) as Hnf.
+  assert (Hex : is_excl_lock (f_pc f) = true) by (destruct Hpc as [-> | ->]; reflexivity).
+  destruct (lock_enabled_iff_free (c_um c) f Hex) as [Hen _].
+  destruct (step_post (c_um c) f) as [r|] eqn:Hsp; [|exact Hps].
+  assert (Hf : free_for_writer (mstate_of (c_um c) f) = true) by (apply Hen; discriminate). congruence.
+Qed.
+
+Theorem ck_rlock_waits_while_write_held t ch f t2 :
+  top_frame c t = Some f -> f_pc f = KRW_RLock ->
+  holds_excl c t2 (key_of (f_call f)) -> step c t ch = None.
+Proof.
+  intros Tt Hpc Hh.
+  assert (Hpl : is_post_label (f_pc f) = true) by (rewrite Hpc; reflexivity).
+  destruct (ck_facts t f Tt Hpl) as (i & Hi & Hkm & Hmo & _ & Hps). specialize (Hps ch).
+  pose proof (excl_not_free_for_reader _ _ _ _ Hmo (ck_in_filter i f _ Hkm Hh eq_refl)) as Hnf.
+  destruct (step_post (c_um c) f) as [r|] eqn:Hsp; [|exact Hps].
+  assert (Hen : step_post (c_um c) f <> None) by congruence.
+  apply (rlock_enabled_iff_no_writer (c_um c) f Hpc) in Hen. congruence.
+Qed.
+
+Hypothesis Hfr : fresh_values progs.
+
+(* with fresh mutexes, the holders on k's mutex are the holders of k *)
+Lemma ck_filter_key i f h : c_insts c = [i] -> kmut (i_st i) (key_of (f_call f)) = Some (f_los f).1 ->
+  h ∈ base.filter (on_km (kmut (i_st i)) (f_los f).1) (holders c) -> h ∈ holders c /\ h.1.2 = key_of (f_call f).
+Proof.
+  intros Hi Hkm Hin. apply elem_of_list_filter in Hin as [H1 H2]. split; [exact H2|].
+  unfold on_km in H1. eapply (kmut_injective_ck progs sched i); eauto.
+Qed.
+
+Lemma ck_acquires f j k v p r b : f_call f = CLoadOrStore j k v p -> post_label p = Some (f_pc f) ->
+  (((f_pc f = KM_Lock \/ f_pc f = KRW_Lock) /\ r = RUnit /\ b = true) \/
+   ((f_pc f = KM_TryLock \/ f_pc f = KRW_TryLock) /\ r = RBool true /\ b = true) \/
+   (f_pc f = KRW_RLock /\ r = RUnit /\ b = false) \/ (f_pc f = KRW_TryRLock /\ r = RBool true /\ b = false)) ->
+  acquires (CLoadOrStore j k v p) r = Some (k, b).
+Proof.
+  intros _ Hpost H. destruct H as [([E|E] & -> & ->)|[([E|E] & -> & ->)|[(E & -> & ->)|(E & -> & ->)]]];
+    rewrite E in Hpost; destruct p; cbn in Hpost; try discriminate; reflexivity.
+Qed.
+
+(* after a successful acquisition the thread holds the key *)
+Lemma ck_now_holds t f c' r b : top_frame c t = Some f -> is_post_label (f_pc f) = true ->
+  completed (c_hist c') = completed (c_hist c) ++ [(t, f_call f, r)] ->
+  (((f_pc f = KM_Lock \/ f_pc f = KRW_Lock) /\ r = RUnit /\ b = true) \/
+   ((f_pc f = KM_TryLock \/ f_pc f = KRW_TryLock) /\ r = RBool true /\ b = true) \/
+   (f_pc f = KRW_RLock /\ r = RUnit /\ b = false) \/ (f_pc f = KRW_TryRLock /\ r = RBool true /\ b = false)) ->
+  (t, key_of (f_call f), b) ∈ holders c'.
+Proof.
+  intros Tt Hpl Hc Hcase. destruct (CK_reach progs sched Hp Hd) as (HCK & _ & _). fold c in HCK.
+  rewrite (holders_snoc _ _ _ Hc). unfold hold_step. cbn [fst snd].
+  assert (Hfo := fo_post _ (inv_frames c (ck_inv _ HCK) t f Tt) Hpl).
+  destruct (f_call f) as [| |j k v p| | |] eqn:Hcall; try contradiction.
+  pose proof (pc_ok_post_label _ _ _ _ _ ltac:(rewrite <- Hcall; apply (ck_pc _ HCK t f Tt)) Hpl) as Hpost.
+  rewrite (ck_acquires f j k v p r b Hcall Hpost Hcase). cbn [key_of]. apply elem_of_app. right. left.
+Qed.
+
+Theorem ck_trylock_succeeds_when_key_free t ch c' f :
+  top_frame c t = Some f -> (f_pc f = KM_TryLock \/ f_pc f = KRW_TryLock) ->
+  (forall t2 b, (t2, key_of (f_call f), b) ∉ holders c) -> step c t ch = Some c' ->
+  completed (c_hist c') = completed (c_hist c) ++ [(t, f_call f, RBool true)] /\ holds_excl c' t (key_of (f_call f)).
+Proof.
+  intros Tt Hpc Hfree Hstep.
+  assert (Hpl : is_post_label (f_pc f) = true) by (destruct Hpc as [-> | ->]; reflexivity).
+  destruct (ck_facts t f Tt Hpl) as (i & Hi & Hkm & Hmo & _ & Hps). specialize (Hps ch).
+  assert (Hnil : base.filter (on_km (kmut (i_st i)) (f_los f).1) (holders c) = []).
+  { destruct (base.filter _ _) as [|[[t2 k2] b2] l] eqn:E; [reflexivity|]. exfalso.
+    destruct (ck_filter_key i f (t2, k2, b2) Hi Hkm ltac:(rewrite E; left)) as [H1 H2]. cbn in H2. subst k2. exact (Hfree t2 b2 H1). }
+  rewrite Hnil in Hmo. apply nil_free_for_writer in Hmo.
+  destruct (try_lock_result (c_um c) f Hpc) as (um2 & Hsp & _ & _). rewrite Hsp, Hmo in Hps.
+  destruct Hps as (c'' & r & Hs & [= <-] & _ & _ & Hc). assert (c'' = c') by congruence. subst c''.
+  split; [exact Hc|]. apply (ck_now_holds t f c' _ true Tt Hpl Hc). right. left. auto.
+Qed.
+
+Theorem ck_tryrlock_succeeds_when_key_not_write_held t ch c' f :
+  top_frame c t = Some f -> f_pc f = KRW_TryRLock ->
+  (forall t2, ~ holds_excl c t2 (key_of (f_call f))) -> step c t ch = Some c' ->
+  completed (c_hist c') = completed (c_hist c) ++ [(t, f_call f, RBool true)] /\ holds_shared c' t (key_of (f_call f)).
+Proof.
+  intros Tt Hpc Hfree Hstep.
+  assert (Hpl : is_post_label (f_pc f) = true) by (rewrite Hpc; reflexivity).
+  destruct (ck_facts t f Tt Hpl) as (i & Hi & Hkm & Hmo & _ & Hps). specialize (Hps ch).
+  assert (Hf : free_for_reader (mstate_of (c_um c) f) = true).
+  { apply (no_excl_free_for_reader _ _ Hmo). intros [[t2 k2] b2] Hin. cbn.
+    destruct (ck_filter_key i f _ Hi Hkm Hin) as [H1 H2]. cbn in H2. subst k2.
+    destruct b2; [|reflexivity]. exfalso. exact (Hfree t2 H1). }
+  destruct (try_rlock_result (c_um c) f Hpc) as (um2 & Hsp & _ & _). rewrite Hsp, Hf in Hps.
+  destruct Hps as (c'' & r & Hs & [= <-] & _ & _ & Hc). assert (c'' = c') by congruence. subst c''.
+  split; [exact Hc|]. apply (ck_now_holds t f c' _ false Tt Hpl Hc). right. right. right. auto.
+Qed.
+
+Theorem ck_lock_succeeds_when_key_free t ch f :
+  top_frame c t = Some f -> (f_pc f = KM_Lock \/ f_pc f = KRW_Lock) ->
+  (forall t2 b, (t2, key_of (f_call f), b) ∉ holders c) ->
+  exists c', step c t ch = Some c' /\ completed (c_hist c') = completed (c_hist c) ++ [(t, f_call f, RUnit)] /\
+             holds_excl c' t (key_of (f_call f)).
+Proof.
+  intros Tt Hpc Hfree.
+  assert (Hpl : is_post_label (f_pc f) = true) by (destruct Hpc as [-> | ->]; reflexivity).
+  destruct (ck_facts t f Tt Hpl) as (i & Hi & Hkm & Hmo & _ & Hps). specialize (Hps ch).
+  assert (Hnil : base.filter (on_km (kmut (i_st i)) (f_los f).1) (holders c) = []).
+  { destruct (base.filter _ _) as [|[[t2 k2] b2] l] eqn:E; [reflexivity|]. exfalso.
+    destruct (ck_filter_key i f (t2, k2, b2) Hi Hkm ltac:(rewrite E; left)) as [H1 H2]. cbn in H2. subst k2. exact (Hfree t2 b2 H1). }
+  rewrite Hnil in Hmo. apply nil_free_for_writer in Hmo.
+  assert (Hex : is_excl_lock (f_pc f) = true) by (destruct Hpc as [-> | ->]; reflexivity).
+  destruct (lock_enabled_iff_free (c_um c) f Hex) as [Hen Hres]. apply Hen in Hmo.
+  destruct (step_post (c_um c) f) as [r|] eqn:Hsp; [|congruence]. rewrite (Hres r eq_refl) in Hps.
+  destruct Hps as (c' & r' & Hs & [= <-] & _ & _ & Hc). exists c'. split; [exact Hs|]. split; [exact Hc|].
+  apply (ck_now_holds t f c' _ true Tt Hpl Hc). left. auto.
+Qed.
+
+Theorem ck_rlock_succeeds_when_key_not_write_held t ch f :
+  top_frame c t = Some f -> f_pc f = KRW_RLock ->
+  (forall t2, ~ holds_excl c t2 (key_of (f_call f))) ->
+  exists c', step c t ch = Some c' /\ completed (c_hist c') = completed (c_hist c) ++ [(t, f_call f, RUnit)] /\
+             holds_shared c' t (key_of (f_call f)).
+Proof.
+  intros Tt Hpc Hfree.
+  assert (Hpl : is_post_label (f_pc f) = true) by (rewrite Hpc; reflexivity).
+  destruct (ck_facts t f Tt Hpl) as (i & Hi & Hkm & Hmo & _ & Hps). specialize (Hps ch).
+  assert (Hf : free_for_reader (mstate_of (c_um c) f) = true).
+  { apply (no_excl_free_for_reader _ _ Hmo). intros [[t2 k2] b2] Hin. cbn.
+    destruct (ck_filter_key i f _ Hi Hkm Hin) as [H1 H2]. cbn in H2. subst k2.
+    destruct b2; [|reflexivity]. exfalso. exact (Hfree t2 H1). }
+  assert (Hsp : exists um', step_post (c_um c) f = Some (Ok (um', Return RUnit))).
+  { unfold step_post. rewrite Hpc. unfold mstate_of, mutex_of in Hf.
+    destruct (default UFree (c_um c !! (f_los f).1)); try discriminate Hf; eauto. }
+  destruct Hsp as [um' Hsp]. rewrite Hsp in Hps. destruct Hps as (c' & r' & Hs & [= <-] & _ & _ & Hc).
+  exists c'. split; [exact Hs|]. split; [exact Hc|].
+  apply (ck_now_holds t f c' _ false Tt Hpl Hc). right. right. left. auto.
+Qed.
+
+End ck_keys.
+
+Theorem ck_disciplined_no_panic progs sched : ck_progs progs -> disc2_from (init_config 1 progs) sched ->
+  c_panicked (run_schedule (init_config 1 progs) sched) = false.
+Proof. intros Hp Hd. apply (CK_reach progs sched Hp Hd). Qed.
